@@ -39,7 +39,18 @@ PROPS: Dict[str, Dict[str, Any]] = {
 }
 
 
-PROPS["C04"] = {"monitor": "C04", "generators": [gen_h2.gen_unusual, gen_h2.gen_h2_faults, gen_h1.gen_c06] + H1_GEN}
+def flat_c13(tier, rng):
+    """the openings of C13, each segmentation as a script of its own"""
+    for sc in gen_proto.gen_c13(tier, rng):
+        for i, steps in enumerate(sc["variants"]):
+            sub = {k: v for k, v in sc.items() if k != "variants"}
+            sub["steps"] = steps
+            sub["fam"] = sc["fam"] + "/split%d" % i
+            yield sub
+
+
+PROPS["C04"] = {"monitor": "C04", "generators": [gen_h2.gen_unusual, gen_h2.gen_h2_faults, gen_h1.gen_c06, gen_ws.gen_c10,
+                                                 gen_ws.gen_c11, flat_c13, gen_limits.gen_c18] + H1_GEN}
 PROPS["C08"] = {"monitor": "C08", "generators": [gen_h2.gen_release, gen_h2.gen_flow]}
 PROPS["C09"] = {"monitor": "C09", "generators": [gen_h2.gen_flow, gen_h2.gen_release, gen_h2.gen_h2_basic]}
 PROPS["C10"] = {"monitor": "C10", "generators": [gen_ws.gen_c10]}
